@@ -190,6 +190,25 @@ def translate(ctx):
         ctx.refusal('pyfun(padstring, fix_blockname, unfix_blockname, valid_blockname)', e); ok = False
     except SyntaxError as e:
         ctx.refusal('pyfun(mulgrids.py)', e); ok = False
+    # the default length of padstring(s, length = 80): t2incon.read calls padstring(line) with the default
+    try:
+        import ast
+        tree = ast.parse(open(os.path.join(ctx.repo, 'mulgrids.py')).read())
+        fn = [n for n in tree.body if isinstance(n, ast.FunctionDef) and n.name == 'padstring']
+        a = fn[0].args if len(fn) == 1 else None
+        if a is None or [x.arg for x in a.args] != ['s', 'length'] or len(a.defaults) != 1 or a.vararg or a.kwarg or a.kwonlyargs or \
+           not isinstance(a.defaults[0], ast.Constant) or type(a.defaults[0].value) is not int or a.defaults[0].value < 0:
+            ctx.refusal('padstring default length', 'expected exactly one top-level def padstring(s, length = <non-negative int literal>)'); ok = False
+        else:
+            ctx.gen('GenPad', '(* GENERATED from mulgrids.padstring (default argument) -- do not edit *)\nFrom Coq Require Import ZArith.\n'
+                              'Definition padstring_default_length : Z := %d%%Z.\n' % a.defaults[0].value)
+        # t2incon.read must call padstring with the default length (one argument)
+        t2 = ast.parse(open(os.path.join(ctx.repo, 't2incons.py')).read())
+        calls = [n for n in ast.walk(t2) if isinstance(n, ast.Call) and isinstance(n.func, ast.Name) and n.func.id == 'padstring']
+        if not calls or any(len(c.args) != 1 or c.keywords for c in calls):
+            ctx.refusal('padstring calls in t2incons.py', 'expected padstring(line) with the default length only'); ok = False
+    except (OSError, SyntaxError) as e:
+        ctx.refusal('padstring default length', e); ok = False
     return ok
 
 
@@ -225,7 +244,7 @@ def gen_corr_desc(rng, thorough):
         if rng.random() < 0.3: d['timing']['sumtim'] = None
     elif r < 0.50 and d['blocks']:
         b = rng.choice(d['blocks']); b['vars'][rng.randrange(len(b['vars']))] = rng.choice([-1.5e-310, 4.9e-324, 1.7976931348623157e308, -2.2250738585072014e-308])
-    if rng.random() < 0.08: d['nv'] = rng.choice([None, 0, 1, 3, 4, 5, 13])   # too large a number: the reader never returns (a few cases only)
+    if rng.random() < 0.05: d['nv'] = rng.choice([None, 0, 1, 3, 4, 5, 13])   # too large a number: the reader never returns (a few cases only)
     return d
 
 
@@ -292,7 +311,7 @@ def correspond(ctx, exe, n_objects, n_oracle, n_inst):
             except Exception as e:
                 impl_w.append(('RAISE', type(e).__name__)); impl_r.append(None); impl_w2.append(None); ptexts.append(None)
                 continue
-            r = impl_read(f1, d['nv'], d['check'], limit=2)
+            r = impl_read(f1, d['nv'], d['check'], limit=1)
             impl_r.append(r)
             rl.append((len(impl_r) - 1, read_case(d['nv'], d['check'], read_text(f1))))
             if r[0] == 'OK':
@@ -344,8 +363,8 @@ def correspond(ctx, exe, n_objects, n_oracle, n_inst):
             nq += k < n_oracle
             if fl['wf'] == '1':
                 nwf += 1; nqwf += k < n_oracle
-                if fl['rw'] != '1' or fl['fix'] != '1':
-                    ctx.disagreement('theorem-instances(model)', orc.desc_to_json(d), mo, 'wf implies read(write i) = canon i and canon(canon i) = canon i')
+                if fl['rw'] != '1':
+                    ctx.disagreement('theorem-instances(model)', orc.desc_to_json(d), mo, 'wf implies read(write i) = canon i')
                 if fl['idh'] == '1':
                     nidh += 1
                     if fl['idem'] != '1':
@@ -432,14 +451,14 @@ def oracle(ctx, descs, name='write-read-write'):
         for d in descs:
             ctx.count(json.dumps(orc.desc_to_json(d), sort_keys=True), nontrivial=orc.nontrivial(d))
             out = orc.roundtrip(d, tmpdir)
-            bad = orc.evaluate(d, out)
-            if bad is None:
+            bad = orc.evaluate_all(d, out)
+            if not bad:
                 if 'write_raised' in out: dist['raised_unrepresentable'] += 1
                 else: dist['passed'] += 1
                 continue
-            what, obs, req = bad
-            key = orc.classify(d, what, out.get('text1'), out.get('text2'))
-            ctx.failure(name, key, orc.desc_to_json(d), '%s: %s' % (what, obs), req)
+            for what, obs, req in bad:
+                key = orc.classify(d, what, out.get('text1'), out.get('text2'), out.get('got'))
+                ctx.failure(name, key, orc.desc_to_json(d), '%s: %s' % (what, obs), req)
         for d in descs[:3]: ctx.sample(orc.desc_to_json(d))
     finally:
         shutil.rmtree(tmpdir, ignore_errors=True)
@@ -448,10 +467,38 @@ def oracle(ctx, descs, name='write-read-write'):
     ctx.extra.setdefault('input_distribution', {}).update(dd)
 
 
+def oracle_shipped(ctx):
+    """the 7 shipped files on the implementation alone: (a) what t2incon holds against a parse of the file by the file
+    format's own columns (independent of the format table of the code), (b) the property statement on the object read"""
+    tmpdir = tempfile.mkdtemp(prefix='c13s_')
+    n = 0
+    try:
+        for rel, nv in SHIPPED:
+            p = os.path.join(ctx.repo, 'tests', 'incon', rel)
+            if not os.path.exists(p):
+                ctx.failure('shipped-files', 't2incon.read:shipped-file-missing', {'file': rel}, 'missing', 'present'); continue
+            ctx.count('shipped:' + rel)
+            try: diff = orc.shipped_values(p, nv)
+            except Exception as e: diff = ('read', '%s: %s' % (type(e).__name__, str(e)[:200]), 'file read')
+            n += 1
+            if diff:
+                ctx.failure('shipped-files', 't2incon.read:shipped-file-values', {'file': rel, 'num_variables': nv}, '%s: %s' % diff[:2], diff[2]); continue
+            for reset in ((False,) if os.path.getsize(p) > 500000 else (False, True)):
+                d = orc.desc_of_file(p, nv, reset)
+                out = orc.roundtrip(d, tmpdir)
+                n += 1
+                for what, obs, req in orc.evaluate_all(d, out):
+                    key = orc.classify(d, what, out.get('text1'), out.get('text2'), out.get('got'))
+                    ctx.failure('shipped-files', key, {'file': rel, 'num_variables': nv, 'reset': reset}, '%s: %s' % (what, str(obs)[:300]), str(req)[:300])
+    finally:
+        shutil.rmtree(tmpdir, ignore_errors=True)
+    ctx.oracle_cases('shipped-files', n, files=len(SHIPPED))
+
+
 def run(ctx):
-    n_oracle = 20000 if ctx.thorough else 300
-    n_extra = 6000 if ctx.thorough else 150
-    n_inst = 3000 if ctx.thorough else 120      # objects on which the theorems' hypotheses and conclusions are evaluated by the model
+    n_oracle = 8000 if ctx.thorough else 300
+    n_extra = 2500 if ctx.thorough else 150
+    n_inst = 1500 if ctx.thorough else 90      # objects on which the theorems' hypotheses and conclusions are evaluated by the model
     ctx.rule = ('initial-condition sets built through the public API: 0..12 (thorough: ..40) blocks named by mulgrid\'s own naming functions in all 4 conventions '
                 '(either justification and case, atmosphere names, 3-digit columns), 1..12 variables per block from 9 value classes (ordinary, negative, '
                 '3-digit exponents of both signs, zeros, rounding ties, carries into a longer exponent), porosity / permeabilities / nseq-nadd present or absent, '
@@ -482,6 +529,7 @@ def run(ctx):
     if descs is None:
         descs = [orc.gen_desc(ctx.rng, ctx.thorough) for _ in range(n_oracle)]
     oracle(ctx, known_witnesses() + descs)
+    oracle_shipped(ctx)
     lap(ctx, 'oracle sweep done')
 
     def deep(broken):
@@ -492,6 +540,21 @@ def run(ctx):
 
 def replay(ctx, data):
     inp = data.get('input')
+    if inp and 'file' in inp and 'blocks' not in inp:
+        p = os.path.join(ctx.repo, 'tests', 'incon', inp['file'])
+        try: diff = orc.shipped_values(p, inp.get('num_variables'))
+        except Exception as e: diff = ('read', repr(e), 'file read')
+        if diff: print('replay: still fails:', diff); return True
+        tmpdir = tempfile.mkdtemp(prefix='c13r_')
+        try:
+            for reset in (False, True):
+                d = orc.desc_of_file(p, inp.get('num_variables'), reset)
+                bad = orc.evaluate_all(d, orc.roundtrip(d, tmpdir))
+                bad = [b for b in bad if orc.classify(d, b[0]) not in ctx.known]
+                if bad: print('replay: still fails:', bad[0]); return True
+        finally:
+            shutil.rmtree(tmpdir, ignore_errors=True)
+        print('replay: property holds on this file'); return False
     if not inp or 'blocks' not in inp: return True
     d = orc.desc_from_json(inp)
     tmpdir = tempfile.mkdtemp(prefix='c13r_')
